@@ -326,6 +326,13 @@ structure C13St where
   syns : List (SockAddr × SockAddr × Nat) := []
   /-- accepted tuples: (server local, client) -/
   accepts : List (SockAddr × SockAddr) := []
+  /-- emitted SYN-ACKs: (server local, client, seq) -/
+  synAcks : List (SockAddr × SockAddr × Nat) := []
+  /-- connections whose handshake completed at the server and that were not accepted yet, in
+      completion order: (server local, client) -/
+  completed : List (SockAddr × SockAddr) := []
+  /-- SYNs that reached a host while a live listener covered their destination: (server local, client) -/
+  halfOpen : List (SockAddr × SockAddr) := []
   liveListeners : List (Nat × Nat × SockAddr) := []   -- slot, host, addr
   liveStreams : List Nat := []
   liveConnecting : List Nat := []
@@ -351,6 +358,47 @@ def danglingZero : Obs → Bool
 /-- Bound on egress rounds after which every entry of a fully closed connection must be gone. -/
 def reclaimBound (cfg : Cfg) : Nat := (cfg.retxThreshold + 1) * (cfg.retxMax + 2) + 4
 
+def hostOfIpS : Ip → Option Nat
+  | .host h _ => some h
+  | _ => none
+
+/-- A non-SYN, non-RST segment with the ACK flag whose ack number answers the most recent SYN-ACK
+    of that 4-tuple completes the server side of the handshake (first time only). -/
+def c13Completion (s : C13St) (p : Packet) : C13St :=
+  let c : SockAddr := { ip := p.src, port := p.seg.srcPort }
+  let l : SockAddr := { ip := p.dst, port := p.seg.dstPort }
+  if p.seg.flags.ack && !p.seg.flags.syn && !p.seg.flags.rst then
+    match (s.synAcks.reverse.find? fun x => x.1 == l && x.2.1 == c) with
+    | some x =>
+      if p.seg.ack == x.2.2 + 1 && s.halfOpen.contains (l, c) && !s.completed.contains (l, c) &&
+          !s.accepts.contains (l, c) then
+        { s with completed := s.completed ++ [(l, c)] }
+      else s
+    | none => s
+  else s
+
+/-- Delivery of a SYN: remember it, and whether a live listener covers its destination. -/
+def c13Syn (s : C13St) (p : Packet) : C13St :=
+  let c : SockAddr := { ip := p.src, port := p.seg.srcPort }
+  let l : SockAddr := { ip := p.dst, port := p.seg.dstPort }
+  let covered := s.liveListeners.any fun x =>
+    hostOfIpS p.dst == some x.2.1 && x.2.2.port == l.port &&
+      (x.2.2.ip == l.ip || (x.2.2.ip.isUnspecified && x.2.2.ip.isV6 == l.ip.isV6))
+  { s with syns := s.syns ++ [(c, l, p.seg.seq)],
+           halfOpen := if covered && !s.halfOpen.contains (l, c) then s.halfOpen ++ [(l, c)] else s.halfOpen }
+
+/-- Backlog: per LISTEN row, accept-queue depth plus half-open children on that port never exceed
+    the configured backlog. -/
+def backlogOk (rows : List Obs) : Bool :=
+  rows.all fun r => match r with
+    | .ns h false rq bl loc none .listen =>
+      let half := (rows.filter fun x => match x with
+        | .ns h' false _ _ l' (some _) (.tcp .synReceived) =>
+          h' == h && l'.port == loc.port && (loc.ip.isUnspecified || l'.ip == loc.ip)
+        | _ => false).length
+      decide (rq + half ≤ bl)
+    | _ => true
+
 def c13Step (cfg : Cfg) (s : C13St) (e : Event) : C13St :=
   let touch := fun (s : C13St) => { s with roundsIdle := 0, quiet := 0 }
   match e.1, e.2 with
@@ -360,7 +408,13 @@ def c13Step (cfg : Cfg) (s : C13St) (e : Event) : C13St :=
     -- legitimate only if a live listener on that host conflicts (or the port range is exhausted)
     if addr.port == 0 || s.liveListeners.any fun l => l.2.1 == h && listenConflict l.2.2 addr then s
     else s.flag "bind refused with AddrInUse although no live listener holds the port (stale binding)"
-  | .ldrop lslot, _ => touch { s with liveListeners := s.liveListeners.filter (·.1 != lslot) }
+  | .ldrop lslot, _ =>
+    let gone := s.liveListeners.filter (·.1 == lslot)
+    let covers := fun (loc : SockAddr) => gone.any fun l =>
+      l.2.2.port == loc.port && (l.2.2.ip == loc.ip || (l.2.2.ip.isUnspecified && l.2.2.ip.isV6 == loc.ip.isV6))
+    touch { s with liveListeners := s.liveListeners.filter (·.1 != lslot),
+                   completed := s.completed.filter fun c => !covers c.1,
+                   halfOpen := s.halfOpen.filter fun c => !covers c.1 }
   | .connect _ cslot sslot _, [.pending] => touch { s with liveConnecting := s.liveConnecting ++ [cslot], liveStreams := s.liveStreams.filter (· != sslot) }
   | .connect _ _ sslot _, [.okConn _ _] => touch { s with liveStreams := s.liveStreams ++ [sslot] }
   | .connect _ _ _ _, _ => touch s
@@ -372,13 +426,24 @@ def c13Step (cfg : Cfg) (s : C13St) (e : Event) : C13St :=
     let s1 := touch { s with liveStreams := s.liveStreams ++ [sslot], accepts := s.accepts ++ [(l, p)] }
     let nSyn := ((s.syns.filter fun x => x.1 == p && x.2.1 == l).map (·.2.2)).eraseDups.length
     let nAcc := (s1.accepts.filter fun x => x == (l, p)).length
-    if nAcc > nSyn then s1.flag "accept handed out a connection more often than it was opened" else s1
+    let s2 := if nAcc > nSyn then s1.flag "accept handed out a connection more often than it was opened" else s1
+    -- FIFO: the accepted connection is the oldest completed, not yet accepted one at that local address
+    let s3 := match s.completed.find? fun c => c.1 == l with
+      | some c => if c == (l, p) then s2 else s2.flag "accept did not hand out the oldest established connection"
+      | none => s2.flag "accept handed out a connection whose handshake never completed"
+    { s3 with completed := s3.completed.erase (l, p), halfOpen := s3.halfOpen.erase (l, p) }
   | .write _ _, _ => touch s
   | .shutdown _, _ => touch s
   | .sdrop sslot, _ => touch { s with liveStreams := s.liveStreams.filter (· != sslot) }
   | .egress, obs =>
     let s1 := obs.foldl (fun s o => match o with
-      | .pkt id p => if p.udp.isSome then s else { s with wire := s.wire ++ [(id, p)] }
+      | .pkt id p =>
+        if p.udp.isSome then s
+        else
+          let s := { s with wire := s.wire ++ [(id, p)] }
+          if p.seg.flags.syn && p.seg.flags.ack then
+            { s with synAcks := s.synAcks ++ [({ ip := p.src, port := p.seg.srcPort }, { ip := p.dst, port := p.seg.dstPort }, p.seg.seq)] }
+          else s
       | _ => s) s
     let silent := obs == [.nothing]
     { s1 with roundsIdle := s1.roundsIdle + 1, quiet := if silent && s1.wire.isEmpty then s1.quiet + 1 else 0 }
@@ -387,19 +452,18 @@ def c13Step (cfg : Cfg) (s : C13St) (e : Event) : C13St :=
     | none => s
     | some p =>
       let s1 := { s with wire := s.wire.filter (·.1 != id), quiet := 0 }
-      if p.seg.flags.syn && !p.seg.flags.ack then
-        { s1 with syns := s1.syns ++ [({ ip := p.src, port := p.seg.srcPort }, { ip := p.dst, port := p.seg.dstPort }, p.seg.seq)] }
-      else s1
+      if p.seg.flags.syn && !p.seg.flags.ack then c13Syn s1 p
+      else c13Completion s1 p
   | .dup id, _ =>
     match s.wire.lookup id with
     | none => s
     | some p =>
-      if p.seg.flags.syn && !p.seg.flags.ack then
-        { s with quiet := 0, syns := s.syns ++ [({ ip := p.src, port := p.seg.srcPort }, { ip := p.dst, port := p.seg.dstPort }, p.seg.seq)] }
-      else { s with quiet := 0 }
+      if p.seg.flags.syn && !p.seg.flags.ack then c13Syn { s with quiet := 0 } p
+      else c13Completion { s with quiet := 0 } p
   | .drop id, _ => { s with wire := s.wire.filter (·.1 != id) }
   | .stat, obs =>
-    let s1 := if obs.all danglingZero then s else s.flag "index entry points at a socket that no longer exists"
+    let s0 := if backlogOk obs then s else s.flag "more unaccepted connections than the listener's backlog"
+    let s1 := if obs.all danglingZero then s0 else s0.flag "index entry points at a socket that no longer exists"
     let handleFree := s.liveListeners.isEmpty && s.liveConnecting.isEmpty && s.liveStreams.isEmpty && s.wire.isEmpty
     if handleFree && (s.quiet ≥ cfg.retxThreshold + 1 || s.roundsIdle ≥ reclaimBound cfg) then
       if obs.all countsZero then s1
